@@ -116,7 +116,10 @@ def source_hash():
 
 def lake_build():
     t0 = time.time()
-    r = subprocess.run(['lake', 'build', 'DitModel', 'ditdriver'], cwd=LEAN_DIR, capture_output=True, text=True)
+    # every Props module on disk is a target of its own, so that a companion file that DitModel.lean does not import yet
+    # is still compiled (and a broken one fails the build instead of silently emptying the audit)
+    props = sorted('DitModel.Props.' + f[:-5] for f in os.listdir(os.path.join(SRC, 'Props')) if f.endswith('.lean'))
+    r = subprocess.run(['lake', 'build', 'DitModel', 'ditdriver'] + props, cwd=LEAN_DIR, capture_output=True, text=True)
     return r.returncode == 0, (r.stdout + r.stderr)[-6000:], time.time() - t0
 
 
